@@ -57,7 +57,9 @@ func suiteC15(cfg Config, res *Result) {
 			dashL, dashR bool
 		}
 		var toks []tok
-		addText := func() { toks = append(toks, tok{text: wsRun(rng) + rng.Pick([]string{"", "a", "b c", "<p>", "x"}) + wsRun(rng)}) }
+		addText := func() {
+			toks = append(toks, tok{text: wsRun(rng) + rng.Pick([]string{"", "a", "b c", "<p>", "x"}) + wsRun(rng)})
+		}
 		addTag := func(inner string) {
 			toks = append(toks, tok{isTag: true, inner: inner, dashL: rng.Chance(1, 4), dashR: rng.Chance(1, 4)})
 		}
@@ -334,7 +336,9 @@ func suiteC15(cfg Config, res *Result) {
 		})
 }
 
-func isWsByte(c byte) bool { return c == '\t' || c == '\n' || c == '\v' || c == '\f' || c == '\r' || c == ' ' }
+func isWsByte(c byte) bool {
+	return c == '\t' || c == '\n' || c == '\v' || c == '\f' || c == '\r' || c == ' '
+}
 
 func suiteC15Spaceless(cfg Config, res *Result) {
 	res.Rule = "random soups of HTML tags (also with newlines, attributes, '>' '<' adjacency, unclosed '<'), text and runs of the six whitespace bytes inside {% spaceless %}, also nested; oracles: the output is the body with only whitespace bytes deleted (same non-whitespace bytes in order); every deleted run lay between a '>' and a '<'; applying spaceless to the output changes nothing; no whitespace run between two tags that the pattern matches survives; also compared with the Lean matcher; non-trivial = body with >= 2 tags; distinct by body"
